@@ -8,11 +8,12 @@ import Mp4ff.Driver.C13
 import Mp4ff.Driver.C14
 import Mp4ff.Driver.C17
 import Mp4ff.Driver.C18
+import Mp4ff.Driver.C19
 /-! `mp4ffdrv`: one request per input line, one response per output line. -/
 open Mp4ff.Driver
 
 def dispatchers : List (String → List String → Option String) :=
-  [C01.dispatch, C05.dispatch, C07.dispatch, C08.dispatch, C09.dispatch, C12.dispatch, C13.dispatch, C14.dispatch, C17.dispatch, C18.dispatch]
+  [C01.dispatch, C05.dispatch, C07.dispatch, C08.dispatch, C09.dispatch, C12.dispatch, C13.dispatch, C14.dispatch, C17.dispatch, C18.dispatch, C19.dispatch]
 
 def respond (line : String) : String :=
   match splitWs line with
